@@ -54,7 +54,9 @@ def run_case(acc, case):
         # the same source as `python -O` runs it (assert statements removed) as well: a refusal must not hang on an assert
         for optimize in (False, True):
             dev = dfusim.Device(variant, pattern_seed=3)
-            r = dfusim.run(fw, dev, via_fifo=case.get('fifo', False), optimize=optimize)
+            dev_id = ['28e9:0189', '28E9:0189', '0x28e9:0x0189', '28e9:189'][(case['extra'] + len(variant) + optimize) % 4]      # spellings of one id
+            core.see(acc, 'device_id_spellings', dev_id)
+            r = dfusim.run(fw, dev, device_id=dev_id, via_fifo=case.get('fifo', False), optimize=optimize)
             acc['ntkeys'].add(core.ckey('over', variant, case['extra'], case.get('fifo'), optimize))
             acc['ctr']['oversize_runs'] += 1
             acc['ctr']['oversize_runs_without_asserts'] += optimize
